@@ -673,6 +673,72 @@ example : delegationRecordsZone ⟨false, false, false, .none⟩ false
     (lookupV4Nss [.failed .other, .failed .loadShed] false none) = false := by decide
 example : lookupV4Nss [.failed .loadShed, .found] false none = .servers := by decide
 
+theorem nssProv_fst (outs : List NSAddr) : ∀ (have_ : Bool) (soft : Option Cause) (prov : Bool),
+    (lookupV4NssProv outs have_ soft prov).1 = lookupV4Nss outs have_ soft := by
+  induction outs with
+  | nil => intro _ _ _; rfl
+  | cons o rest ih =>
+    intro have_ soft prov
+    cases o with
+    | found => unfold lookupV4NssProv lookupV4Nss; exact ih _ _ _
+    | failed c =>
+      unfold lookupV4NssProv lookupV4Nss
+      split
+      · rfl
+      · split <;> exact ih _ _ _
+
+theorem nssProv_abort (outs : List NSAddr) : ∀ (have_ : Bool) (soft : Option Cause) (prov : Bool) (c : Cause),
+    (∀ s, soft = some s → s = .attemptLimit ∨ s = .loadShed) →
+    (lookupV4NssProv outs have_ soft prov).1 = .error c →
+    (c = .workLimit ∨ c = .maxRecursion ∨ c = .canceled ∨ c = .deadline) →
+    (lookupV4NssProv outs have_ soft prov).2 = false := by
+  induction outs with
+  | nil =>
+    intro have_ soft prov c hs h hc
+    unfold lookupV4NssProv lookupV4Nss at h
+    cases have_ <;> cases soft with
+    | none => simp at h
+    | some s =>
+      simp at h
+      -- only a remembered soft refusal can come out of the empty list: never a hard cause
+      try (exfalso; subst h; rcases hs s rfl with h' | h' <;> rcases hc with hc | hc | hc | hc <;> rw [hc] at h' <;> cases h')
+  | cons o rest ih =>
+    intro have_ soft prov c hs h hc
+    cases o with
+    | found => unfold lookupV4NssProv at h ⊢; exact ih _ _ _ c hs h hc
+    | failed c' =>
+      unfold lookupV4NssProv at h ⊢
+      split
+      · rfl
+      · rename_i hhard
+        split
+        · rename_i hsoft
+          simp only [hhard, if_false, hsoft, if_true] at h
+          refine ih _ _ _ c ?_ h hc
+          intro s hs'; cases hs'; exact hsoft
+        · rename_i hsoft
+          simp only [hhard, if_false, hsoft] at h
+          exact ih _ _ _ c hs h hc
+
+/-- **A request that aborts the name-server address collection takes its
+truncated provisional delegation with it.** Whenever `lookupV4Nss` returns a
+work-budget, recursion-bound, cancellation or deadline error, no provisional
+delegation is left behind — so a later, independent request can never mistake
+the servers found so far for the zone's whole server set and publish the zone
+as unreachable on their account. (`lookupV4NssProv` refines `lookupV4Nss`.) -/
+theorem aborted_collection_leaves_no_provisional_delegation (outs : List NSAddr) (glue : Bool) (c : Cause)
+    (h : lookupV4Nss outs glue none = .error c)
+    (hc : c = .workLimit ∨ c = .maxRecursion ∨ c = .canceled ∨ c = .deadline) :
+    lookupV4NssProv outs glue none false = (.error c, false) := by
+  have h1 := nssProv_fst outs glue none false
+  have h2 := nssProv_abort outs glue none false c (by intro s hs; cases hs) (by rw [h1]; exact h) hc
+  exact Prod.ext (by rw [h1]; exact h) h2
+
+-- non-vacuity: two addresses found, then the budget runs out: the error is returned and nothing is left;
+-- a soft refusal after a found address leaves the (complete-so-far) provisional entry for the final Set
+example : lookupV4NssProv [.found, .found, .failed .workLimit, .found] false none false = (.error .workLimit, false) := by decide
+example : lookupV4NssProv [.found, .failed .loadShed, .found] false none false = (.servers, true) := by decide
+
 /-! ## the kill switch -/
 
 /-- **rfc9520 off is inert.** With the switch off no Store entry point reads
